@@ -576,6 +576,7 @@ func (c *client) prepareResultChannels(
 	// The wait group Close waits on is only incremented here, under the mutex and while the client is not
 	// closed, so that no increment can coincide with Close waiting on it (sync.WaitGroup panics on that).
 	if c.done {
+		vh("c.register", "run", stepData.RunID, "closed", true)
 		return fmt.Errorf("client is closed, cannot execute step with run ID '%s'", stepData.RunID)
 	}
 	_, existing := c.runningStepResultEntries[stepData.RunID]
